@@ -283,6 +283,33 @@ def skipField (d : Bytes) (fv : FieldValue) (p fend : UInt64) : Except Err UInt6
   | .len l => lrSkip d p fend l
   | _ => .ok p
 
+/-- `read_string` (`utf8 = true`) / `read_bytes`: bounds check, allocation of `l` bytes, `read_exact`,
+then UTF-8 validation for strings. -/
+def consumeBlob (d : Bytes) (utf8 : Bool) (p fend l : UInt64) : Except Err (Option Val × UInt64) :=
+  match lrReadBytes d p fend l with
+  | .ok p2 =>
+    if !utf8 || validUtf8 (d.extract p.toNat p2.toNat).toList then .ok (some (.blob l), p2)
+    else .error .invalidUtf8
+  | .error e => .error e
+
+/-- Packed branch of `read_repeated_*`: `self.reader.sub_limit(len)?`, then run the iterator `loop`
+(`packedVarints` / `packedFixed`) from `p` to the new end. -/
+def consumePacked (loop : UInt64 → UInt64 → Except Err (List UInt64 × UInt64)) (p fend l : UInt64) :
+    Except Err (Option Val × UInt64) :=
+  match lrSub p fend l with
+  | .ok e2 =>
+    match loop p e2 with
+    | .ok (xs, p2) => .ok (some (.nums xs), p2)
+    | .error e => .error e
+  | .error e => .error e
+
+/-- `field.skip()?`, recording `v`. -/
+def consumeSkip (d : Bytes) (v : Option Val) (fv : FieldValue) (p fend : UInt64) :
+    Except Err (Option Val × UInt64) :=
+  match skipField d fv p fend with
+  | .ok p2 => .ok (v, p2)
+  | .error e => .error e
+
 /-- Everything a non-message arm does with a field whose sub-reader is `(p, fend)`.
 Returns the decoded value (if recorded) and the new position. -/
 def consumeField (d : Bytes) (fuel : Nat) (k : Kind) (fv : FieldValue) (p fend : UInt64) :
@@ -290,19 +317,11 @@ def consumeField (d : Bytes) (fuel : Nat) (k : Kind) (fv : FieldValue) (p fend :
   match k with
   | .str =>
     match fv with
-    | .len l =>
-      match lrReadBytes d p fend l with
-      | .ok p2 =>
-        if validUtf8 (d.extract p.toNat p2.toNat).toList then .ok (some (.blob l), p2)
-        else .error .invalidUtf8
-      | .error e => .error e
+    | .len l => consumeBlob d true p fend l
     | _ => .error .typeMismatch
   | .bytes =>
     match fv with
-    | .len l =>
-      match lrReadBytes d p fend l with
-      | .ok p2 => .ok (some (.blob l), p2)
-      | .error e => .error e
+    | .len l => consumeBlob d false p fend l
     | _ => .error .typeMismatch
   | .f32 =>
     match fv with
@@ -319,55 +338,30 @@ def consumeField (d : Bytes) (fuel : Nat) (k : Kind) (fv : FieldValue) (p fend :
   | .packedI32 =>
     match fv with
     | .varint v => .ok (some (.nums [signExt32 v]), p)
-    | .len l =>
-      match lrSub p fend l with
-      | .ok e2 =>
-        match packedVarints d signExt32 fuel p e2 [] with
-        | .ok (xs, p2) => .ok (some (.nums xs), p2)
-        | .error e => .error e
-      | .error e => .error e
+    | .len l => consumePacked (fun a b => packedVarints d signExt32 fuel a b []) p fend l
     | _ => .error .typeMismatch
-  | .packedI64 | .packedU64 =>
+  | .packedI64 =>
     match fv with
     | .varint v => .ok (some (.nums [v]), p)
-    | .len l =>
-      match lrSub p fend l with
-      | .ok e2 =>
-        match packedVarints d id fuel p e2 [] with
-        | .ok (xs, p2) => .ok (some (.nums xs), p2)
-        | .error e => .error e
-      | .error e => .error e
+    | .len l => consumePacked (fun a b => packedVarints d id fuel a b []) p fend l
+    | _ => .error .typeMismatch
+  | .packedU64 =>
+    match fv with
+    | .varint v => .ok (some (.nums [v]), p)
+    | .len l => consumePacked (fun a b => packedVarints d id fuel a b []) p fend l
     | _ => .error .typeMismatch
   | .packedF32 =>
     match fv with
     | .i32 v => .ok (some (.nums [v]), p)
-    | .len l =>
-      match lrSub p fend l with
-      | .ok e2 =>
-        match packedFixed d 4 fuel p e2 [] with
-        | .ok (xs, p2) => .ok (some (.nums xs), p2)
-        | .error e => .error e
-      | .error e => .error e
+    | .len l => consumePacked (fun a b => packedFixed d 4 fuel a b []) p fend l
     | _ => .error .typeMismatch
   | .packedF64 =>
     match fv with
     | .i64 v => .ok (some (.nums [v]), p)
-    | .len l =>
-      match lrSub p fend l with
-      | .ok e2 =>
-        match packedFixed d 8 fuel p e2 [] with
-        | .ok (xs, p2) => .ok (some (.nums xs), p2)
-        | .error e => .error e
-      | .error e => .error e
+    | .len l => consumePacked (fun a b => packedFixed d 8 fuel a b []) p fend l
     | _ => .error .typeMismatch
-  | .flag =>
-    match skipField d fv p fend with
-    | .ok p2 => .ok (some .flag, p2)
-    | .error e => .error e
-  | .skip =>
-    match skipField d fv p fend with
-    | .ok p2 => .ok (none, p2)
-    | .error e => .error e
+  | .flag => consumeSkip d (some .flag) fv p fend
+  | .skip => consumeSkip d none fv p fend
   | .msg _ => .error .typeMismatch
 
 /-! ## Message decoding (`DecodeMessage::decode_fields`, `decode_field`) -/
